@@ -172,7 +172,7 @@ def content_case_script(case: dict) -> tuple[dict, dict]:
     kind = "unary" if at == "unary" else ("exch" if at.endswith("_exch") else "prod")
     script = {"tr": case["tr"], "kind": kind, "hdr": at == "init_hdr", "iraise": False,
               "ops": [] if kind == "unary" else (["i"] if kind == "prod" else ["t", "t", "c"])}
-    return script, {"slot": "init" if at in ("unary", "init", "init_hdr") else at.split("_")[0]}
+    return script, {"slot": "init" if at in ("unary", "init", "init_hdr") else at.split("_")[0]}      # pre|post|tail|prefail|postfail
 
 
 def run_content_case(world, case: dict, x: int) -> dict:
@@ -184,7 +184,12 @@ def run_content_case(world, case: dict, x: int) -> dict:
              "post": [spec] if place["slot"] in ("post", "tail") else [], "md": False,
              "rows": 20000 if case.get("route") == "shm" else 1}          # 160 kB >= SHM_MIN_BATCH_BYTES: through the segment
     plain = {"pre": [], "act": "emit", "post": [], "rows": 1, "md": False}
-    if tail and script["kind"] == "prod":
+    fail = place["slot"] in ("prefail", "postfail")
+    if fail:          # one good turn, then the failing one: [messages] raise  |  emit [messages] raise
+        bad = ({"pre": [spec], "act": "raise", "post": []} if place["slot"] == "prefail"
+               else {"pre": [], "act": "emitraise", "post": [spec], "rows": step1["rows"], "md": False})
+        steps = [plain, bad]
+    elif tail and script["kind"] == "prod":
         steps = [plain, step1, plain]                 # the message follows batch 2, the last one the caller takes
     elif script["kind"] == "unary":
         steps = []
@@ -209,7 +214,19 @@ def run_content_case(world, case: dict, x: int) -> dict:
                 events.append(("P", r == x))
                 return
             sess = r
-            if tail:
+            if fail:
+                try:
+                    if script["kind"] == "exch":
+                        for k in (1, 2):
+                            ab = sess.exchange(AnnotatedBatch(batch=L.input_batch(x, k, "exact", {"in_rows": 1})))
+                            events.append(("P0", L._ident(ab, x) == k))
+                    else:
+                        for ab in sess:
+                            events.append(("P0", L._ident(ab, x) == 1))
+                except RpcError:
+                    events.append(("P", True))          # the error is what the message precedes
+                    events.append(("ERR", True))
+            elif tail:
                 # one turn, then leave: the message sits behind the batch and is met only by the exit
                 if script["kind"] == "exch":
                     ab = sess.exchange(AnnotatedBatch(batch=L.input_batch(x, 1, "exact", {"in_rows": 1})))
@@ -250,9 +267,9 @@ def run_content_case(world, case: dict, x: int) -> dict:
     msgs = [m for t, m in events if t == "L"]
     first_payload = next((i for i, (t, _) in enumerate(events) if t == "P"), len(events))
     first_log = next((i for i, (t, _) in enumerate(events) if t == "L"), -1)
-    payload_bad = any(t == "P" and not ok for t, ok in events)
+    payload_bad = any(t in ("P", "P0") and not ok for t, ok in events) or sum(1 for t, _ in events if t == "P0") > 1
     m = msgs[0] if msgs else None
-    return {"failed": bool(failed or payload_bad), "delivered": len(msgs),
+    return {"failed": bool(failed or payload_bad), "errored": any(t == "ERR" for t, _ in events), "delivered": len(msgs),
             "level_ok": bool(m and m.level.value == spec["level"]), "text_ok": bool(m and m.message == spec["text"]),
             "extra_ok": bool(m and user_extras(m) == (spec["extra"] or {})),
             "before_payload": bool(m and 0 <= first_log < first_payload), "_notes": notes}
